@@ -315,7 +315,7 @@ func (db *ContractDB) LoadContractFile(path, pkgPath string) error {
 					aa.Before = true
 				case sel[0] == "after":
 					aa.Before = false
-				case sel[0] == "call" || sel[0] == "return" || sel[0] == "send" || sel[0] == "entry":
+				case sel[0] == "call" || sel[0] == "return" || sel[0] == "send" || sel[0] == "entry" || sel[0] == "store":
 					aa.SelKind = sel[0]
 				case strings.HasPrefix(sel[0], "#"):
 					aa.Ord, _ = strconv.Atoi(sel[0][1:])
